@@ -98,9 +98,11 @@ func (s *Subscription) Unsubscribe(opts ...func(*Frame) error) error {
 	if !s.active {
 		return ErrCompletedSubscription
 	}
+	// UNSUBSCRIBE travels to the broker (a visible step); its RECEIPT closes the channel
+	vsched.Yield()
+	s.conn.obj.Write()
 	s.active = false
-	// UNSUBSCRIBE travels to the broker; its RECEIPT closes the channel
-	vsched.Close(s.C)
+	vsched.CloseNow(s.C, 0x0c105e)
 	return nil
 }
 
@@ -142,7 +144,11 @@ func (c *Conn) Deliver(dest, contentType string, body []byte) {
 	}
 	for _, s := range targets {
 		m := &Message{Destination: dest, ContentType: contentType, Conn: c, Subscription: s, Body: append([]byte(nil), body...), Seq: c.seq}
-		vsched.Send(s.C, m)
+		// the subscription's read loop forwards frames into C; with fewer than 16 undelivered
+		// messages this never blocks, so it is modelled as atomic with the broker step
+		if !vsched.SendNow(s.C, m) {
+			panic("fakestomp: subscription buffer full or closed (outside the modelled range)")
+		}
 	}
 }
 
